@@ -1,8 +1,11 @@
-(* C09_pl_Mars: the GENERATED Mars.geocentric_position, whole body, ideal instance, callees
-   abstracted (their values are hypotheses; Epoch.__isub__ returns an Epoch with JDE j1 for
-   exactly the light-time tau_of ... of the first pass).  The body returns
-   ecliptical2equatorial(LAMG, BETG, true_obliquity(j1)) and the elongation ELONG, with LAMG,
-   BETG, ELONG the closed forms of C09_body.  (One template for the seven planets.) *)
+(* C09_pl_Mars: the GENERATED Mars.geocentric_position, whole body, ideal instance.
+   Callees abstracted, each hypothesis stated ONLY for the argument the body really passes:
+   the planet at the caller's epoch j and at the shifted epoch j1, the Earth at j,
+   Epoch.__isub__ for exactly (epoch j, tau_of ...), nutation_longitude / true_obliquity /
+   Sun.apparent_geocentric_position at j1, ecliptical2equatorial at (LAMG, BETG, obl1) (this last
+   hypothesis is discharged in C09_planets.v with C05's closed form ecl2eq_closed, so that RA/Dec
+   are interpreted there).
+   (One template for the seven planets.) *)
 From Coq Require Import Reals ZArith List Bool Lra Lia String.
 From PyLib Require Import PyVal PyBuiltins Ideal IdealFacts Whnf PyEval Sphere.
 From Spec Require Import AngleSpec.
@@ -20,20 +23,21 @@ Ltac2 Set Whnf.is_blocked as old := fun c =>
      '@Mars_geometric_heliocentric_position]).
 
 Section Planet.
-Variables pl pb pr el eb er : R -> R.
-Variables nut obl sl sb sr : R -> R.
-Variables era edec : R -> R -> R -> R.
+(* planet at j: (lA,bA,rA); planet at j1: (l,b,r); Earth at j: (l0,b0,r0); at j1: nutation nut1,
+   true obliquity obl1, Sun (sl1,sb1,sr1) -- degrees / AU *)
+Variables lA bA rA l b r l0 b0 r0 nut1 obl1 sl1 sb1 sr1 raV decV : R.
 Variables j j1 : R.
-Hypothesis HP : forall j, Mars_geometric_heliocentric_position Rops (ep j) (VBool false) = VTuple [ang (pl j); ang (pb j); VFloat (pr j)].
-Hypothesis HE : forall j, Earth_geometric_heliocentric_position Rops (ep j) (VBool false) = VTuple [ang (el j); ang (eb j); VFloat (er j)].
-Hypothesis Hisub : Epoch___isub__ Rops (ep j) (VFloat (tau_of (pl j) (pb j) (pr j) (el j) (eb j) (er j))) = ep j1.
+Hypothesis HPa : Mars_geometric_heliocentric_position Rops (ep j) (VBool false) = VTuple [ang lA; ang bA; VFloat rA].
+Hypothesis HPb : Mars_geometric_heliocentric_position Rops (ep j1) (VBool false) = VTuple [ang l; ang b; VFloat r].
+Hypothesis HE : Earth_geometric_heliocentric_position Rops (ep j) (VBool false) = VTuple [ang l0; ang b0; VFloat r0].
+Hypothesis Hisub : Epoch___isub__ Rops (ep j) (VFloat (tau_of lA bA rA l0 b0 r0)) = ep j1.
 Hypothesis HJ : M_Epoch.g_JDE2000 Rops = ep 2451545.
-Hypothesis Hnut : forall j, f_nutation_longitude Rops (VTuple [ep j]) (VDict []) = ang (nut j).
-Hypothesis Hobl : forall j, f_true_obliquity Rops (VTuple [ep j]) (VDict []) = ang (obl j).
-Hypothesis Hsun : forall j, Sun_apparent_geocentric_position Rops (ep j) (VBool true) = VTuple [ang (sl j); ang (sb j); VFloat (sr j)].
-Hypothesis He2e : forall a b e, f_ecliptical2equatorial Rops (ang a) (ang b) (ang e) = VTuple [ang (era a b e); ang (edec a b e)].
+Hypothesis Hnut : f_nutation_longitude Rops (VTuple [ep j1]) (VDict []) = ang nut1.
+Hypothesis Hobl : f_true_obliquity Rops (VTuple [ep j1]) (VDict []) = ang obl1.
+Hypothesis Hsun : Sun_apparent_geocentric_position Rops (ep j1) (VBool true) = VTuple [ang sl1; ang sb1; VFloat sr1].
 
-Let l := pl j1. Let b := pb j1. Let r := pr j1. Let l0 := el j. Let b0 := eb j. Let r0 := er j.
+Hypothesis He2e : f_ecliptical2equatorial Rops (ang (LAMG l b r l0 b0 r0 j1 nut1)) (ang (BETG l b r l0 b0 r0 j1)) (ang obl1) = VTuple [ang raV; ang decV].
+
 Hypothesis H1 : Rabs (dl1G l b r l0 b0 r0 j1) < 60.
 Hypothesis H2 : Rabs (db1G l b r l0 b0 r0 j1) < 60.
 Hypothesis H3 : Rabs (dl2aG l b r l0 b0 r0 j1) < 60.
@@ -61,14 +65,16 @@ Ltac py9_hook s tac ::=
   | Angle___sub__ Rops (VObj cAngle [VFloat ?a; VFloat ?ta]) (VFloat ?b) => rw_with s (sub_AF a ta b)
   | Angle_rad Rops (VObj cAngle [VFloat ?a; VFloat ?ta]) => rw_with s (rad_ideal a ta)
   | Angle_to_positive Rops (VObj cAngle [VFloat (red360 ?y); VFloat ?ta]) => rw_with s (to_positive_ideal (red360 y) ta (red360_range y))
-  | Mars_geometric_heliocentric_position Rops (VObj cEpoch [VFloat ?j]) (VBool false) => rw_with s (HP j)
-  | Earth_geometric_heliocentric_position Rops (VObj cEpoch [VFloat ?j]) (VBool false) => rw_with s (HE j)
+  | Mars_geometric_heliocentric_position Rops (VObj cEpoch [VFloat ?x]) _ =>
+      (* never let a failing [exact] unfold the callee: choose the hypothesis syntactically *)
+      tryif constr_eq x j then rw_with s HPa else rw_with s HPb
+  | Earth_geometric_heliocentric_position Rops _ _ => rw_with s HE
   | Epoch___isub__ Rops _ _ => rw_with s Hisub
   | M_Epoch.g_JDE2000 Rops => rw_with s HJ
-  | f_nutation_longitude Rops (VTuple [VObj cEpoch [VFloat ?j]]) (VDict []) => rw_with s (Hnut j)
-  | f_true_obliquity Rops (VTuple [VObj cEpoch [VFloat ?j]]) (VDict []) => rw_with s (Hobl j)
-  | Sun_apparent_geocentric_position Rops (VObj cEpoch [VFloat ?j]) (VBool true) => rw_with s (Hsun j)
-  | f_ecliptical2equatorial Rops (VObj cAngle [VFloat ?a; _]) (VObj cAngle [VFloat ?b; _]) (VObj cAngle [VFloat ?e; _]) => rw_with s (He2e a b e)
+  | f_nutation_longitude Rops _ _ => rw_with s Hnut
+  | f_true_obliquity Rops _ _ => rw_with s Hobl
+  | Sun_apparent_geocentric_position Rops _ _ => rw_with s Hsun
+  | f_ecliptical2equatorial Rops _ _ _ => rw_with s He2e
   end.
 Ltac dec_planet :=
   first [ sq_nonneg
@@ -79,9 +85,8 @@ Ltac dec_planet :=
 
 Theorem body_Mars :
   Mars_geocentric_position Rops (ep j) =
-  VTuple [ang (era (LAMG l b r l0 b0 r0 j1 (nut j1)) (BETG l b r l0 b0 r0 j1) (obl j1));
-          ang (edec (LAMG l b r l0 b0 r0 j1 (nut j1)) (BETG l b r l0 b0 r0 j1) (obl j1));
-          ang (ELONG l b r l0 b0 r0 j1 (nut j1) (sl j1))].
+  VTuple [ang raV; ang decV;
+          ang (ELONG l b r l0 b0 r0 j1 nut1 sl1)].
 Proof.
   unfold ep. pyrun9_using dec_planet. reflexivity.
 Qed.
